@@ -254,7 +254,11 @@ def check(ctx):
         sdr = A.method(prog, "ReactCache", "schedule_despawn_reactions")
         # calls *on the receiver itself* (what is done with a received entity, e.g. logging it, is not a read of the channel)
         rc = [lib.tail(n, 2) for b, t, n, ch in lib.field_method_calls(sdr, "ReactCache", rfield) if not ch]
-        ctx.check(rc == ["Receiver::try_recv"], "C08.c", "schedule_despawn_reactions:reads-own-receiver", "%s:%d" % (sdr.file, sdr.line), "", "schedule_despawn_reactions reads %s" % rc)
+        # `while let Ok(e) = rx.try_recv()` or the lazy `for e in rx.try_iter()` (TryIter::next is try_recv().ok()); not a
+        # collected snapshot
+        snap = [lib.tail(n, 1) for b, t, n, ch in lib.field_method_calls(sdr, "ReactCache", rfield) if ch and lib.tail(n, 1) in ("collect", "count", "last", "fold")]
+        ctx.check(rc in (["Receiver::try_recv"], ["Receiver::try_iter"]) and not snap, "C08.c", "schedule_despawn_reactions:reads-own-receiver",
+                  "%s:%d" % (sdr.file, sdr.line), "", "schedule_despawn_reactions reads %s %s" % (rc, snap))
     except mir.AnchorLost as e:
         ctx.fail("C08.c", "anchor-lost:despawn channel", "", str(e))
     try:
